@@ -63,17 +63,21 @@ def predict_case(case, ctx):
         # pairwise-distinct rows: row i starts with i
         a = torch.randint(0, 7, (n, w), generator=g)
         a[:, 0] = torch.arange(n) * (j + 1) + j
+        if case.get("arg_dtypes", ["int64"] * nargs)[j] == "float64":
+            # values that float32 cannot hold: an argument must reach the model exactly as given, whatever the model's dtype
+            a = a.to(torch.float64) + 100000000.0 + 0.25
         args.append(a)
     argc = [a.clone() for a in args]
     T = case["T"]
     outputs = [[T]] + [[o] for o in case["extra_outputs"]]
     container = case["container"]
-    net = ExactNet(A, L, outputs, n_args=nargs, seed=case["seed"], container=container, has_param=case["has_param"])
+    pdt_model = torch.float32 if case.get("param_dtype") == "float32" else torch.float64
+    net = ExactNet(A, L, outputs, n_args=nargs, seed=case["seed"], container=container, has_param=case["has_param"], param_dtype=pdt_model)
     model = Wrapped(net, T, case["seed"], case["bn"], case["dropout"]) if (case["bn"] or case["dropout"]) else net
     # oracle first, on the same instance in eval mode, one example at a time
     model.eval()
     with torch.no_grad():
-        pdt = torch.float64 if (case["has_param"] or case["bn"]) else X.dtype
+        pdt = (pdt_model if case["has_param"] else (torch.float64 if case["bn"] else X.dtype))
         rows = [model(X[i:i + 1].type(pdt), *[a[i:i + 1] for a in args]) for i in range(n)]
     if container == "tensor":
         want = [torch.cat(rows)]
@@ -131,7 +135,9 @@ def _case(draw, n, b):
             "arg_widths": [draw(st.integers(1, 3)) for _ in range(nargs)], "T": draw(st.integers(1, 4)),
             "extra_outputs": [] if container == "tensor" else [draw(st.integers(1, 3)) for _ in range(draw(st.integers(0, 2)))],
             "container": container, "has_param": draw(st.integers(0, 5)) > 0, "bn": draw(st.booleans()), "dropout": draw(st.booleans()),
-            "bad_arg": draw(st.one_of(st.none(), st.none(), st.none(), st.none(), st.integers(0, 2)))}
+            "bad_arg": draw(st.one_of(st.none(), st.none(), st.none(), st.none(), st.integers(0, 2))),
+            "arg_dtypes": [draw(st.sampled_from(["int64", "int64", "float64"])) for _ in range(nargs)],
+            "param_dtype": draw(st.sampled_from(["float64", "float64", "float32"]))}
 
 
 @st.composite
